@@ -46,8 +46,30 @@ static void *submitter(void *a){ (void)a;
       if(atomic_load(&x->runs)!=1) fail("dispatch_sync on the main queue returned without its item having run exactly once: runs",atomic_load(&x->runs),0,0); }
     if(rnd()%4==0) usleep(rnd()%300); }
   atomic_fetch_add(&subs_done,1); return 0; }
+// ---- run-loop queues (_dispatch_runloop_root_queue_create_4CF): thread-bound serial queues drained one item per call of
+// _dispatch_runloop_root_queue_perform_4CF by their thread. An item may give back the client's last reference to the queue while it
+// runs; the items still queued are then run by the pool - after the running item has finished, one at a time, in order.
+extern dispatch_queue_serial_t _dispatch_runloop_root_queue_create_4CF(const char *label, unsigned long flags);
+extern bool _dispatch_runloop_root_queue_perform_4CF(dispatch_queue_t queue);
+struct rl { _Atomic int running, next, done; int n, rel_at; dispatch_queue_t q; };
+struct rli { struct rl *r; int idx; };
+static void rl_item(void *c){ struct rli *x=c; struct rl *r=x->r;
+  if(atomic_fetch_add(&r->running,1)) fail("two items of a run-loop queue overlapped (an item started while another was running): item/released-at",x->idx,r->rel_at,0);
+  int s=atomic_fetch_add(&r->next,1); if(s!=x->idx) fail("items of a run-loop queue started out of submission order: item/position",x->idx,s,0);
+  if(x->idx==r->rel_at) dispatch_release(r->q);            // the client does not need the queue any more
+  usleep((useconds_t)(x->idx==r->rel_at ? 3000+rnd()%20000 : rnd()%1500));
+  atomic_fetch_sub(&r->running,1); atomic_fetch_add(&r->done,1); free(x); }
+static void *rl_thread(void *a){ struct rl *r=a; r->q=_dispatch_runloop_root_queue_create_4CF("c02.rl",0);
+  for(int i=0;i<r->n;i++){ struct rli *x=malloc(sizeof *x); x->r=r; x->idx=i; dispatch_async_f(r->q,x,rl_item); }
+  for(int i=0;i<=r->rel_at;i++) (void)_dispatch_runloop_root_queue_perform_4CF(r->q);   // one item per turn, up to and including the releasing one
+  for(int w=0; w<50000 && atomic_load(&r->done)<r->n; w++) usleep(100);
+  if(atomic_load(&r->done)<r->n) fail("items queued on a run-loop queue behind the item that released it never ran (5 s): done/items",atomic_load(&r->done),r->n,0);
+  return 0; }
+static long runloop_rounds(int rounds){ long n=0; for(int k=0;k<rounds && !viol;k++){ struct rl *r=calloc(1,sizeof *r); r->n=2+(int)(rnd()%5); r->rel_at=(int)(rnd()%(unsigned)(r->n-1));
+    pthread_t t; pthread_create(&t,0,rl_thread,r); pthread_join(t,0); n+=r->n; usleep(2000); } return n; }
 int main(int argc,char**argv){ seed=argc>1?strtoull(argv[1],0,0):1; nthr=argc>2?atoi(argv[2]):3; nops=argc>3?atoi(argv[3]):300;
   its=calloc(MAXI,sizeof *its); mh=_dispatch_get_main_queue_handle_4CF();
+  long rl_items=runloop_rounds(12);
   pthread_t th[16]; for(int i=0;i<nthr;i++) pthread_create(&th[i],0,submitter,0);
   int idle=0;
   for(long spins=0; spins<2000000 && !viol; spins++){ struct pollfd pf={mh,POLLIN,0}; poll(&pf,1,2); _dispatch_main_queue_callback_4CF(NULL);
@@ -62,4 +84,4 @@ int main(int argc,char**argv){ seed=argc>1?strtoull(argv[1],0,0):1; nthr=argc>2?
     for(long j=0;j<n;j++){ if(its[j].sync || i==j) continue;
       if(its[i].sub_done>=0 && its[i].sub_done<its[j].sub_begin && its[i].start>its[j].start){ fail("asynchronous items of the main queue started out of submission order: item submitted first (returned) / item submitted later but started earlier",i,j,0); break; } } }
   if(viol){ printf("ORACLE VIOL seed=%llu %s\n",(unsigned long long)seed,vmsg); fflush(stdout); _exit(1); }
-  printf("ORACLE ok items=%ld nested_callback_calls=%ld\n",n,atomic_load(&nested_calls)); fflush(stdout); _exit(0); }
+  printf("ORACLE ok items=%ld nested_callback_calls=%ld runloop_queue_items=%ld\n",n+rl_items,atomic_load(&nested_calls),rl_items); fflush(stdout); _exit(0); }
